@@ -471,4 +471,44 @@ def specSet (key phase : String) (faults : List FaultPt) (o : Obs) : List String
   | none => spec key phase none 0 o
   | some f => spec key f.phase (some (f.k, f.handled)) f.maxLogged o
 
+/-! ### several operations in one process
+
+The working directory is process state: an API user (unlike the command line) may run one operation in project `A`, `os.chdir` to
+project `B` and run the next one there — with the same or another `API` object. -/
+
+/-- one operation of a session: the caller changes into `dir`, the stub log is re-armed, `steps` run under `orc` -/
+structure SessOp where
+  dir : Path
+  orc : Oracle
+  steps : List Step
+
+/-- what is observed of one operation of a session -/
+structure SessObs where
+  res : Res
+  cwdBefore : Path
+  cwdAfter : Path
+  calls : List Call
+deriving Repr
+
+/-- operations one after the other in one process: file system, flags and working directory are carried over from one to the next -/
+def runSession (w : World) : List SessOp → List SessObs
+  | [] => []
+  | op :: rest =>
+    let out := run op.orc op.steps { w with cwd := op.dir, calls := [] }
+    { res := out.1, cwdBefore := op.dir, cwdAfter := out.2.cwd, calls := out.2.calls } :: runSession out.2 rest
+
+/-- `execute` returning to a directory remembered earlier in the process (`base`: filled by the first call, e.g. a module-level
+    cache of "the directory pydjinni was started from") instead of the directory of *this* call. Only used by the counterexample
+    `executeCached_stale_moves_cwd`: it is the shape of regression the session stream of the check is there for. -/
+def executeCached (base : Path) (orc : Oracle) (tool : String) (sig : List String) (wd : Option P) (eff : List Eff) (handled : Bool)
+    (w : World) : Res × World :=
+  match chdirTo w wd with
+  | none => (.err (.oserror "chdir"), w)
+  | some w1 =>
+    let r := orc w1.calls.length tool
+    let call : Call := { tool := tool, sig := sig, ranIn := w1.cwd, result := r, handled := handled && decide (r ≠ .ok) }
+    match r with
+    | .ok => (.ok, { w1 with cwd := base, calls := w1.calls ++ [call], files := addFiles w1.files (eff.map (Eff.resolve w.cwd w1.cwd)) })
+    | _ => (.err .external, { w1 with cwd := base, calls := w1.calls ++ [call] })
+
 end Pydjinni.Sys.Pkg
